@@ -716,20 +716,30 @@ def compile (prog : Program) (entry : String := "main") (fuel : Nat := 10000) : 
 
 /-! ## Rendering in the format of the Go `Instruction.String()` methods -/
 
-partial def PVal.render : PVal → String
+/-- `Value.Display()` of an instruction operand (`valueObject.go`: fields in key order, one per line, nested
+displays re-indented by four blanks; an empty any-object is `{\n    \n}`). -/
+partial def PVal.display : PVal → String
   | .null => "null"
   | .int v => toString v
   | .float b => (fmtFloat (floatOfBits b)).getD "<float>"
   | .bool b => if b then "true" else "false"
-  | .str s => "\"" ++ (s.replace "\n    " "").replace "\n" "" ++ "\""
+  | .str s => s
   | .noneOpt => "none"
   | .emptyList => "[]"
-  | .emptyAnyObj => "{}"
+  | .emptyAnyObj => "{\n    \n}"
   | .obj fs =>
     let sorted := (fs.toArray.qsort fun a b => a.1 < b.1).toList
-    "{" ++ ",".intercalate (sorted.map fun (k, v) => s!"{k}: {(match v with | .str s => s | v => v.render)}") ++ "}"
+    "{\n    " ++ ",\n    ".intercalate (sorted.map fun (k, v) => s!"{k}: {v.display.replace "\n" "\n    "}") ++ "\n}"
   | .range0 => "0..0"
   | .vmFn n => s!"<vm-runtime-function ({n})>"
+
+/-- `ValueInstruction.String()`: the display, a string operand in quotes, line breaks (each with up to four blanks of
+indentation) removed. -/
+def PVal.render (v : PVal) : String :=
+  let strip := fun (s : String) => (s.replace "\n    " "").replace "\n" ""
+  match v with
+  | .str s => "\"" ++ strip s ++ "\""
+  | v => strip v.display
 
 def tyRender : Ty → String
   | _ => "?"
